@@ -59,6 +59,8 @@ type docCase struct {
 	cfg      parseCfg
 	reuse    *simdjson.ParsedJson
 	useReuse bool
+	strGuard bool // reused objects get a string buffer that ends at a guard page
+	strSlack int  // bytes of capacity beyond the parser's own minimum for that buffer
 	seen     map[uint64]bool
 	nontriv  int
 	accepted int
@@ -81,8 +83,24 @@ func (dc *docCase) parseGuarded(in []byte) (pj *simdjson.ParsedJson, perr error,
 		var ru *simdjson.ParsedJson
 		if dc.useReuse {
 			ru = dc.reuse
+			if ru != nil && dc.strGuard {
+				// the reused object's string buffer (an exported field; callers carve such buffers from their own slabs)
+				// ends at a guard page: a store past its capacity faults instead of landing in a neighbour
+				size := len(bytes.TrimSpace(buf)) / 10
+				if size < 128 {
+					size = 128
+				}
+				size += dc.strSlack
+				if sg := guardAllocStr(size); sg != nil {
+					ru.Strings = &simdjson.TStrings{B: sg.data[len(sg.data)-size:][:0:size]}
+				}
+			}
 		}
 		pj, perr = doParse(buf, ru, dc.cfg)
+		if perr == nil && pj != nil && pj.Strings != nil && dc.strGuard {
+			// results outlive this call: move the strings out of the shared guard mapping
+			pj.Strings.B = append([]byte(nil), pj.Strings.B...)
+		}
 		return nil
 	})
 	return
@@ -167,6 +185,9 @@ func (dc *docCase) try(in []byte, kind string) bool {
 			}
 			msg := fmt.Sprint(wp.Val)
 			if strings.Contains(msg, "fault address") || strings.Contains(msg, "invalid memory address") || strings.Contains(msg, "SIGSEGV") {
+				if ae, ok := wp.Val.(interface{ Addr() uintptr }); ok && inStrGuard(ae.Addr()) {
+					return fail("oob-write", "guard-page:"+wp.Stack, fmt.Sprintf("%s: store past the capacity of the reused object's string buffer (guard page hit): %v", what, wp))
+				}
 				return fail("oob-read", "guard-page:"+wp.Stack, fmt.Sprintf("%s: access outside the input buffer (guard page hit): %v", what, wp))
 			}
 			return fail("panic", panicSig(wp), fmt.Sprintf("%s: %v", what, wp))
@@ -288,6 +309,10 @@ func RunFaultDoc(r *Run) {
 	r.Res.Sample["cfg"] = cfg.String()
 	r.fp.u64(hashBytes(base))
 	dc := &docCase{r: r, cfg: cfg, seen: map[uint64]bool{}, useReuse: c.Intn("reuse", 3) == 0}
+	if dc.useReuse {
+		dc.strGuard = c.Intn("strguard", 2) == 0
+		dc.strSlack = c.Intn("strslack", 48)
+	}
 	defer func() {
 		r.Res.Distinct = dc.nontriv
 		r.Res.NonTrivial = dc.nontriv > 0
